@@ -12,7 +12,8 @@ ENC = ["asynq/generator.py: async_generator, _AsyncGenerator.__iter__/next/send/
        "list_of_generator, take_first, Value"]
 # (a failing awaited future is deliberately not in the alphabet: the statement does not say where its
 # error surfaces - asynq raises it in the consumer, not inside the generator body)
-CODES = ["await item", "await const", "Value", "await task", "Value(None)"]
+# "Value(future)": the payload of a Value is itself a future - it is delivered as that very object, not awaited
+CODES = ["await item", "await const", "Value", "await task", "Value(None)", "Value(future)"]
 
 
 class _B(asynq.BatchBase):
@@ -35,7 +36,7 @@ class _It(asynq.BatchItemBase):
         self.v = v
 
 
-def make_gen(codes, vals, consumed, nested=False):
+def make_gen(codes, vals, consumed, futs, nested=False):
     @A()
     def sub(v):
         r = yield _It(v)
@@ -61,11 +62,13 @@ def make_gen(codes, vals, consumed, nested=False):
                 acc = acc + (yield sub.asynq(vals[i]))
             elif c == 4:
                 yield Value(None)
+            elif c == 5:
+                yield Value(futs[i])
         consumed[0] = len(codes) + 1
     return gen
 
 
-def expected_values(codes, vals):
+def expected_values(codes, vals, futs):
     out = []
     acc = 0
     for i, c in enumerate(codes):
@@ -77,6 +80,8 @@ def expected_values(codes, vals):
             acc = acc + vals[i] + 1
         elif c == 4:
             out.append(None)
+        elif c == 5:
+            out.append(futs[i])
     return out
 
 
@@ -96,10 +101,11 @@ def mk(L):
         _B.cur[0] = None
         consumed = [0]
         try:
-            gen = make_gen(codes, vals, consumed)
-            exp = expected_values(codes, vals)
+            futs = dict((i, ConstFuture(("payload", i, vals[i]))) for i, c in enumerate(codes) if c == 5)
+            gen = make_gen(codes, vals, consumed, futs)
+            exp = expected_values(codes, vals, futs)
             desc = "generator body %s" % ([CODES[c] for c in codes],)
-            vpos = [i for i, c in enumerate(codes) if c in (2, 4)]
+            vpos = [i for i, c in enumerate(codes) if c in (2, 4, 5)]
             if md == 0:
                 got = list_of_generator(gen())
                 if got != exp:
